@@ -40,6 +40,9 @@ type Line struct {
 	U     []int     // unit indices, in line order
 	V     []float64 // values, parallel to U (finite)
 	Noise int       // bit 0: residue key "cpu", bit 1: ignored key "suite", bit 2: key "pkg"
+	// Pad further measurements in units "pad<i>" that the builder's filter rejects (only when the
+	// case filters by unit); PadBefore of them stand before the measurements in U
+	Pad, PadBefore int
 }
 
 // ExpT is one experiment (one value of the experiment key).
@@ -149,6 +152,21 @@ func (c *Case) options() *benchseries.BuilderOptions {
 	}
 }
 
+// pad measurements exist only where the filter rejects them.
+func (l Line) pad(c *Case) int {
+	if c.FilterUnit < 0 || l.Pad < 0 || l.Pad > 200 {
+		return 0
+	}
+	return l.Pad
+}
+
+func (l Line) padBefore(c *Case) int {
+	if n := l.pad(c); l.PadBefore >= 0 && l.PadBefore <= n {
+		return l.PadBefore
+	}
+	return 0
+}
+
 // direct builds the *benchfmt.Result of a line.
 func (c *Case) direct(l Line) *benchfmt.Result {
 	r := &benchfmt.Result{Name: []byte(c.Benches[l.B]), Iters: 1}
@@ -157,8 +175,15 @@ func (c *Case) direct(l Line) *benchfmt.Result {
 			r.Config = append(r.Config, benchfmt.Config{Key: kv[0], Value: []byte(kv[1]), File: true})
 		}
 	}
+	pb := l.padBefore(c)
+	for k := 0; k < pb; k++ {
+		r.Values = append(r.Values, benchfmt.Value{Value: float64(k + 1), Unit: "pad" + strconv.Itoa(k)})
+	}
 	for i, u := range l.U {
 		r.Values = append(r.Values, benchfmt.Value{Value: l.V[i], Unit: c.Units[u]})
+	}
+	for k := pb; k < l.pad(c); k++ {
+		r.Values = append(r.Values, benchfmt.Value{Value: float64(k + 1), Unit: "pad" + strconv.Itoa(k)})
 	}
 	return r
 }
@@ -180,8 +205,15 @@ func (c *Case) fileText(idx []int) string {
 			}
 		}
 		sb.WriteString("Benchmark" + c.Benches[l.B] + " 1")
+		pb := l.padBefore(c)
+		for k := 0; k < pb; k++ {
+			sb.WriteString(" " + strconv.Itoa(k+1) + " pad" + strconv.Itoa(k))
+		}
 		for j, u := range l.U {
 			sb.WriteString(" " + strconv.FormatFloat(l.V[j], 'g', -1, 64) + " " + c.Units[u])
+		}
+		for k := pb; k < l.pad(c); k++ {
+			sb.WriteString(" " + strconv.Itoa(k+1) + " pad" + strconv.Itoa(k))
 		}
 		sb.WriteString("\n")
 	}
@@ -992,7 +1024,7 @@ func Gen(t *rapid.T) Case {
 	c.Benches = distinctSample(t, benchPool, rapid.IntRange(1, 4).Draw(t, "nbench"), "benches")
 	c.Policy = rapid.SampledFrom([]int{benchseries.DUPE_REPLACE, benchseries.DUPE_COMBINE}).Draw(t, "policy")
 	c.FilterUnit = -1
-	if rapid.IntRange(0, 9).Draw(t, "filter") == 0 {
+	if rapid.IntRange(0, 5).Draw(t, "filter") == 0 {
 		c.FilterUnit = rapid.IntRange(0, len(c.Units)-1).Draw(t, "filterunit")
 	}
 
@@ -1085,6 +1117,12 @@ func Gen(t *rapid.T) Case {
 	valKind := rapid.SampledFrom([]int{0, 0, 1, 1, 2, 3}).Draw(t, "valkind")
 	maxMeas := rapid.SampledFrom([]int{2, 3, 6, 6}).Draw(t, "maxmeas")
 
+	// long lines (only with a unit filter, which rejects the padding): the filter's per-line
+	// bookkeeping works in words of 32 measurements
+	padded := c.FilterUnit >= 0 && rapid.Bool().Draw(t, "padded")
+	if padded {
+		c.Intent = append(c.Intent, "long_lines")
+	}
 	addLines := func(tb, b, e, s, role, n int) {
 		for k := 0; k < n; k++ {
 			l := Line{T: tb, B: b, E: e, S: s, Role: role}
@@ -1111,6 +1149,13 @@ func Gen(t *rapid.T) Case {
 			}
 			if rapid.IntRange(0, 3).Draw(t, "noisy") == 0 {
 				l.Noise = rapid.IntRange(0, 63).Draw(t, "noise")
+			}
+			if padded && rapid.Bool().Draw(t, "padline") {
+				l.Pad = rapid.SampledFrom([]int{28, 29, 30, 31, 32, 38, 60, 61, 62, 63, 64, 70}).Draw(t, "npad")
+				l.PadBefore = rapid.SampledFrom([]int{0, l.Pad, l.Pad / 2, 20, 31, 32}).Draw(t, "padbefore")
+				if l.PadBefore > l.Pad {
+					l.PadBefore = l.Pad
+				}
 			}
 			c.Lines = append(c.Lines, l)
 		}
